@@ -118,6 +118,11 @@ def materialise_pair(p):
                 right[:, c] = fill[c % 4]
         for r, c, v in p["pert"]:
             right[r, c] = v
+    if p.get("noise"):
+        # a seeded fraction of the right pixels is replaced: noisy disparity maps (pure function of the drawn seed)
+        rs = np.random.RandomState(p["noise"]["seed"])
+        hit = rs.rand(H, W) < p["noise"]["frac"]
+        right = np.where(hit, rs.randint(0, int(left.max()) + 1, (H, W)), right).astype(np.float32)
     ml = _mask(p.get("mask_left"), H, W, p["valid"], p["nodata"])
     mr = _mask(p.get("mask_right"), H, W, p["valid"], p["nodata"])
     return left, right, ml, mr
